@@ -545,6 +545,7 @@ func (c *Ctx) checkIsFull(isFull *ssa.Function) {
 					if (q == "errors.Is" && len(call.Call.Args) == 2 && call.Call.Args[0] == statErr && c.isGlobal(call.Call.Args[1], "io/fs", "ErrNotExist", "os", "ErrNotExist")) ||
 						(q == "os.IsNotExist" && call.Call.Args[0] == statErr) {
 						notExist = true
+						statNonNil = true // a nil error is not ErrNotExist
 					}
 				}
 			}
